@@ -151,7 +151,9 @@ def h_field_diff(sx, cfg):
     periodic = cfg["periodic"]
     restrict = cfg["restrict"]
     dims = DIMSETS[cfg.get("dims", "default")][nd]
-    bc = dims[ax] if periodic else ""
+    bc = dims[ax] if periodic else cfg.get("bc", "")
+    if bc == "other":  # periodic along every other (one-letter) axis, open along the differentiated one
+        bc = "".join(d for a, d in enumerate(dims) if a != ax and len(d) == 1)
     mesh, pmin, e = sym_mesh(sx, n, dims=dims, bc=bc)
     dx = e[ax] / n[ax]
     vshape = n
@@ -233,6 +235,24 @@ def h_field_diff(sx, cfg):
             sx.check(f"{klass[idx + (c,)]}[{idx},{c}]", sx.eq(g.array[idx + (c,)], exact[idx + (c,)]))
 
 
+def h_int_dtype(sx, cfg):
+    """integer-typed data (concrete; the cast happens inside numpy): the derivative is the one of the same numbers held as floats"""
+    df = lib.load()
+    with sx.native():
+        n = cfg["n"]
+        cell = cfg["cell"]
+        mesh = df.Mesh(p1=0.0, p2=n * cell, n=n)
+        vals = np.array(cfg["values"], dtype=np.int64).reshape(n, 1)
+        valid = np.array(cfg.get("valid", [True] * n), dtype=bool)
+        for order in (1, 2):
+            fi = df.Field(mesh, nvdim=1, value=vals, dtype=np.int64, valid=valid)
+            ff = df.Field(mesh, nvdim=1, value=vals.astype(float), valid=valid)
+            gi, gf = fi.diff("x", order=order), ff.diff("x", order=order)
+            sx.check(f"int-data-order-{order}", bool(np.allclose(np.asarray(gi.array, dtype=float), gf.array, rtol=1e-12, atol=0.0)),
+                     got=np.asarray(gi.array).ravel().tolist(), want=gf.array.ravel().tolist())
+            sx.check(f"int-operand-untouched-{order}", fi.array.dtype == np.int64 and bool(np.array_equal(fi.array, vals)))
+
+
 def h_refusals(sx, cfg):
     df = lib.load()
     mesh, pmin, e = sym_mesh(sx, (3, 2))
@@ -286,5 +306,17 @@ def tasks(tier):
             t.append(dict(harness="h_field_diff",
                           cfg=dict(n=[2, ring], axis=1, order=order, nvdim=2, periodic=True, restrict=True, all_valid=True, dims="renamed", labels=True),
                           limits=dict(validate=1)))
+    # only the directions named in bc are rings: 'neumann' / 'dirichlet' and rings along other axes leave this line open
+    # (axis names that are letters of those words: u, a, n / d, c ...)
+    lim = dict(max_paths=5000, validate=1, wall_budget=600.0 if tier == "quick" else 3000.0)
+    open_bc = [((4,), 0, "neumann", "renamed"), ((2, 3), 1, "neumann", "renamed"), ((3, 1, 1), 0, "neumann", "renamed"), ((3, 1, 1, 1), 0, "dirichlet", "renamed"),
+               ((1, 3, 1, 1), 1, "neumann", "renamed"), ((3, 2), 0, "other", "default"), ((2, 3), 1, "other", "renamed"), ((3,), 0, "dirichlet", "default")]
+    if tier != "quick":
+        open_bc += [((5,), 0, "neumann", "renamed"), ((2, 1, 4), 0, "neumann", "renamed"), ((1, 1, 4, 1), 2, "dirichlet", "renamed"), ((2, 2, 3), 2, "other", "default")]
+    for n, ax, bc, dims in open_bc:
+        for order in (1, 2):
+            t.append(dict(harness="h_field_diff", cfg=dict(n=list(n), axis=ax, order=order, nvdim=1, periodic=False, restrict=bool(order % 2), bc=bc, dims=dims), limits=lim))
+    for cfg in (dict(n=5, cell=2.0, values=[0, 1, 4, 9, 16]), dict(n=4, cell=0.5, values=[3, -2, 7, 5]), dict(n=6, cell=3.0, values=[1, 2, 4, 7, 11, 16], valid=[True, True, True, False, True, True])):
+        t.append(dict(harness="h_int_dtype", cfg=cfg))
     t.append(dict(harness="h_refusals", cfg={}))
     return t
